@@ -17,8 +17,9 @@ ledger is the family of per-instance ledgers.
 What the extractor (checks/thread_extract.py) reads off the source is a parameter (`Cfg`): whether spawn
 inspects `__clone`'s result / cleans up after a failed `mmap`, the futex values `join`/`drop` wait on and
 the word's initial value, whether the losing thread resets its clear-tid address before freeing the
-block.  Environment assumptions are parameters too: `loadSync` (a load that observes the kernel's 0 is
-ordered before later accesses) and `spurious` (a futex waiter may be woken without a wake on its word).
+block.  Two environment parameters are not constrained by the proofs for the repaired code: `spurious`
+(a futex waiter may be woken without a wake on its word — the futex contract allows it) and `loadSync`
+(hardware ordering for a Relaxed load; only the code before the repair depended on it).
 The assembly (`__clone`, the stack-unmap epilogue) is modelled as single steps (`hClone`, `tMunmap`,
 `tExit`), observed by strace, not verified.
 -/
@@ -170,7 +171,8 @@ structure Cfg where
   setTidPanic : Bool    -- panic handler: likewise
   dropValH : Bool       -- `Drop for JoinHandle`: after a lost CAS the unread result is dropped before the block is freed
   dropValT : Bool       -- epilogue: a thread that lost the CAS drops its result before it frees the block
-  loadSync : Bool       -- assumption: observing the kernel's 0 with a plain load orders later accesses (x86-64 TSO)
+  recheck : Bool        -- join/drop wait in `wait_for_exit`: the word is re-read (Acquire) after every return of futex_wait_fast
+  loadSync : Bool       -- hardware assumption (only needed when `recheck` is off): a Relaxed load that observes the kernel's 0 orders later accesses
   spurious : Bool       -- environment: FUTEX_WAIT may return 0 without a wake on the word
   deriving Repr, DecidableEq
 
@@ -228,6 +230,8 @@ def takeVal (x : Inst) : Inst :=
 
 def expectOf (c : Cfg) (j : Bool) : Nat := if j then c.joinExpect else c.dropExpect
 def afterWait (j : Bool) : HPc := if j then .jRead else .dFree
+/-- where H continues when futex_wait_fast returns because of the system call's result -/
+def retTo (c : Cfg) (j : Bool) : HPc := if c.recheck then .wLoad j else afterWait j
 
 /-- where T goes after it is done with the flag (won the CAS, or lost it and freed the block) -/
 def afterFlag (panicked : Bool) : TPc := if panicked then .munmap else .freeTls
@@ -280,7 +284,7 @@ def stepI (c : Cfg) (x : Inst) (e : Ev) : Option Inst :=
           if v = x.word ∨ v = c.initWord then
             if v ≠ expectOf c j then
               some (touchTsm { x with h := afterWait j,
-                                      hsees := x.hsees || (c.loadSync && x.kdone && x.ctid && v == x.word && v != c.initWord) })
+                                      hsees := x.hsees || ((c.recheck || c.loadSync) && x.kdone && x.ctid && v == x.word && v != c.initWord) })
             else some (touchTsm { x with h := .wSys j })
           else none
       | _ => none
@@ -290,7 +294,7 @@ def stepI (c : Cfg) (x : Inst) (e : Ev) : Option Inst :=
           if park then
             if x.word = expectOf c j then some (touchTsm { x with h := .wParked j }) else none
           else
-            if x.word ≠ expectOf c j then some (touchTsm { x with h := afterWait j, hsees := x.hsees || (x.kdone && x.ctid) }) else none
+            if x.word ≠ expectOf c j then some (touchTsm { x with h := retTo c j, hsees := x.hsees || (x.kdone && x.ctid) }) else none
       | _ => none
   | .hEintr =>          -- interrupted wait: Err(EINTR), loop
       match x.h with
@@ -298,7 +302,7 @@ def stepI (c : Cfg) (x : Inst) (e : Ev) : Option Inst :=
       | _ => none
   | .hSpur =>           -- a wake that is not the kernel's clear-tid wake: Ok(()), futex_wait_fast returns
       match x.h with
-      | .wParked j => if c.spurious then some { x with h := afterWait j } else none
+      | .wParked j => if c.spurious then some { x with h := retTo c j } else none
       | _ => none
   | .hReadSlot =>       -- tsm.get_value().into_inner()
       if x.h = .jRead then
@@ -360,7 +364,7 @@ def stepI (c : Cfg) (x : Inst) (e : Ev) : Option Inst :=
           -- *clear_child_tid = 0; futex_wake(clear_child_tid): every waiter on the word returns Ok(())
           let y := touchTsm { x with kdone := true, word := 0 }
           match x.h with
-          | .wParked j => some { y with h := afterWait j, hsees := true }
+          | .wParked j => some { y with h := retTo c j, hsees := true }
           | _ => some y
         else some { x with kdone := true }
       else none
@@ -387,7 +391,7 @@ def run (c : Cfg) : St → List (Nat × Ev) → Option St
 /-- what the proofs need of the source-derived parameters and of the environment -/
 def Cfg.Good (c : Cfg) : Prop :=
   c.checkClone = true ∧ c.mmapCleanup = true ∧ c.initWord = 1 ∧ c.joinExpect = 1 ∧ c.dropExpect = 1 ∧
-  c.setTidRet = true ∧ c.setTidPanic = true ∧ c.loadSync = true ∧ c.spurious = false ∧ c.dropValH = true ∧ c.dropValT = true
+  c.setTidRet = true ∧ c.setTidPanic = true ∧ c.recheck = true ∧ c.dropValH = true ∧ c.dropValT = true
 
 instance (c : Cfg) : Decidable c.Good := by unfold Cfg.Good; infer_instance
 
